@@ -193,6 +193,10 @@ func (s *Server) subscribe(requestedBurst int, subscriber string) *subscription 
 	s.lock.Lock()
 	defer s.lock.Unlock()
 
+	if requestedBurst < 0 {
+		requestedBurst = 0
+	}
+
 	chanSize := 200
 	var blocks []*pbbstream.Block
 
